@@ -51,11 +51,13 @@ def one(name):
             a = sh("cd /tmp && PYTHONPATH=%s timeout 300 /venv/bin/python %s/demo.py" % (wt, d)).returncode
             b = sh("cd /tmp && PYTHONPATH=/repo timeout 300 /venv/bin/python %s/demo.py" % d).returncode
             res["demo"] = "fails with patch (exit %d), passes without (exit %d)" % (a, b)
-        pids = [meta["property"]] + [p for p in meta.get("detected_by", {}) if p != meta["property"]]
+        others = [p for p in meta.get("detected_by", {}) if p != meta["property"]]
+        pids = others + [meta["property"]]                 # (a neighbouring check known to catch it goes first)
         for pid in pids:
             rc, viol, first = run_check(pid, "quick", wt, out)
             tier = "quick"
-            if rc != 1 and pid == meta["property"]:
+            caught_elsewhere = any(c["exit"] == 1 for c in res["checks"].values())
+            if rc != 1 and pid == meta["property"] and not caught_elsewhere:
                 rc, viol, first = run_check(pid, "thorough", wt, out)
                 tier = "thorough"
             res["checks"][pid] = {"tier": tier, "exit": rc, "violation_lines": viol, "first": first}
